@@ -2559,7 +2559,14 @@ def fresh_vars(
 def ensure_unique_bound_variables(  # noqa: C901
     formula: Formula, used_names: Optional[Set[str]] = None
 ) -> Formula:
-    used_names: Set[str] = set() if used_names is None else used_names
+    # Bound variables must not be renamed to the name of a free variable of the
+    # formula (e.g., the variable introduced for a free nonterminal that is yet to
+    # be bound by a quantifier), which would then be captured.
+    used_names: Set[str] = (
+        {var.name for var in formula.free_variables()}
+        if used_names is None
+        else used_names
+    )
 
     if isinstance(formula, QuantifiedFormula):
         orig_used_names = set(used_names)
